@@ -1,11 +1,13 @@
 #!/venv/bin/python
-"""usage: store_seed3.py <prop> [k=note ...]  - store the confirmed round-3 seeds of a property under /verif/seeded/R3-<prop>-<k>/"""
+"""usage: [SEED_ROUND=4] store_seed3.py <prop> [k=note ...]  - store the confirmed seeds of a round (default 3) of a property
+under /verif/seeded/R<round>-<prop>-<k>/ (reads /tmp/seed<round>-eval-<prop>.log and /tmp/seed<round>-<prop>-out/<k>/)"""
 import json, os, re, shutil, sys
+RND = os.environ.get('SEED_ROUND', '3')
 prop = sys.argv[1]
 over = dict(a.split('=', 1) for a in sys.argv[2:])
-log = open('/tmp/seed3-eval-%s.log' % prop).read()
+log = open('/tmp/seed%s-eval-%s.log' % (RND, prop)).read()
 for k in (1, 2, 3):
-    src = '/tmp/seed3-%s-out/%d' % (prop, k)
+    src = '/tmp/seed%s-%s-out/%d' % (RND, prop, k)
     if not os.path.exists(src + '/patch.diff'):
         continue
     m = re.search(r'^%s/%d (demo_clean_exit=0 demo_changed_exit=1 tests: 93 passed.*)$' % (prop, k), log, re.M)
@@ -14,14 +16,14 @@ for k in (1, 2, 3):
     sect = log.split('== %s/%d check' % (prop, k))[1].split('== %s/%d rc=' % (prop, k))
     rc = sect[1].strip().split()[0]
     keys = sorted(set(re.findall(r'\[([^\]]+/[A-Za-z:]+)\]\s*$', sect[0], re.M)))
-    dst = '/verif/seeded/R3-%s-%d' % (prop, k)
+    dst = '/verif/seeded/R%s-%s-%d' % (RND, prop, k)
     os.makedirs(dst, exist_ok=True)
     for f in ('patch.diff', 'demo.py'):
         shutil.copy(src + '/' + f, dst + '/' + f)
     meta = json.load(open(src + '/meta.json'))
-    meta['round'] = 3
+    meta['round'] = int(RND)
     meta['confirmed_by_me'] = m.group(1)
-    meta['ran'] = 'harness/eval_seed3.sh %s (confirm_seed.sh + try_seed.sh quick)' % prop
+    meta['ran'] = 'harness/eval_seed3.sh %s seed%s (confirm_seed.sh + try_seed.sh quick)' % (prop, RND)
     note = over.get(str(k))
     if rc == '1' and not note:
         meta['detected_by'] = {'check': prop, 'clauses': ', '.join(keys[:6]), 'missed_at_first': False}
